@@ -94,6 +94,31 @@ def kernel_cases(seed, thorough=False):
                    'detail': '' if okr else f"min distribution {float(numpy.min(dist)):.4g}; widths increasing: {bool(numpy.all(numpy.diff(pw) > 0))}"}
         except CalculationError:
             yield {'name': 'user_kernel_file|columns_in_decreasing_width_order', 'ok': True, 'detail': 'optimiser reported failure (no claim)'}
+        # a kernel whose pore widths run past 10 nm (labels such as '9.6', '12.0': numerical, not lexicographic, order)
+        big = raw.iloc[:, ::3].copy()
+        big.columns = [repr(round(float(c) * 4, 4)) for c in big.columns]
+        bigf = tmp + '/wide.csv'
+        big.to_csv(bigf)
+        bw = numpy.asarray(big.columns, dtype=float)
+        pk = numpy.asarray(big.index, dtype=float)
+        sel = (pk > 1e-6) & (pk < 0.9)
+        wv = numpy.zeros(len(bw))
+        wv[[3, len(bw) // 2, len(bw) - 2]] = (0.02, 0.01, 0.015)
+        lv = sum(wv[i] * numpy.asarray(big.iloc[:, i].values, dtype=float) for i in range(len(bw)))
+        try:
+            pw, dist, cum, fitted = PK.psd_dft_kernel_fit(pk[sel], lv[sel], bigf, 0)
+            probs = []
+            if not (len(pw) == len(bw) and numpy.allclose(pw, numpy.sort(bw))):
+                probs.append(f"reported widths {numpy.asarray(pw)[:4]}.. are not the file's widths in increasing order {numpy.sort(bw)[:4]}..")
+            if numpy.min(dist) < -1e-9:
+                probs.append(f"negative distribution value {float(numpy.min(dist)):.3g}")
+            if numpy.any(numpy.diff(cum) < -1e-9):
+                probs.append('cumulative volume decreases')
+            if not numpy.allclose(fitted, lv[sel], atol=0.02 * float(numpy.max(lv))):
+                probs.append(f"fitted isotherm deviates by {float(numpy.max(numpy.abs(fitted - lv[sel]))):.3g}")
+            yield {'name': 'user_kernel_file|widths_beyond_10nm', 'ok': not probs, 'detail': '; '.join(probs)}
+        except CalculationError:
+            yield {'name': 'user_kernel_file|widths_beyond_10nm', 'ok': True, 'detail': 'optimiser reported failure (no claim)'}
         again = PK._load_kernel(path)
         ok = numpy.allclose(numpy.asarray(list(again.keys()), dtype=float), widths)
         yield {'name': 'user_kernel_file|shipped_kernel_afterwards', 'ok': bool(ok), 'detail': ''}
